@@ -656,12 +656,42 @@ fn post_inner(
             let views = leaf.views();
             if all_identity(&views) {
                 post_leaf(solver, ctx, leaf, |v: &View| ctx.ids[v.var], negations, mode, tag)
+            } else if views.iter().all(|v| ctx.lits[v.var].is_some()) {
+                // every view is over a literal: use the literals themselves as 0-1 integer
+                // variables, through the most direct transformation the API offers
+                post_leaf(
+                    solver,
+                    ctx,
+                    leaf,
+                    |v: &View| {
+                        let l = ctx.lits[v.var].unwrap();
+                        if v.a == 1 {
+                            l.offset(v.b)
+                        } else if v.b == 0 {
+                            l.scaled(v.a)
+                        } else {
+                            l.scaled(v.a).offset(v.b)
+                        }
+                    },
+                    negations,
+                    mode,
+                    tag,
+                )
             } else {
                 post_leaf(
                     solver,
                     ctx,
                     leaf,
-                    |v: &View| ctx.ids[v.var].scaled(v.a).offset(v.b),
+                    |v: &View| {
+                        let d = ctx.ids[v.var];
+                        if v.a == 1 {
+                            d.offset(v.b)
+                        } else if v.b == 0 {
+                            d.scaled(v.a)
+                        } else {
+                            d.scaled(v.a).offset(v.b)
+                        }
+                    },
                     negations,
                     mode,
                     tag,
